@@ -389,6 +389,21 @@ func runCachePlan(t *testing.T, planAny any, ctl Ctl) *Result {
 		w.sim = s
 		s.Attach()
 		defer s.Detach()
+		// "the counters never go negative": not only at the checkpoints, at every step of the schedule
+		negSeen := ""
+		s.OnStep = func(step int) {
+			if negSeen != "" || w.c == nil {
+				return
+			}
+			if b, n := metrics.Global.Cache.BytesCached.Get(), metrics.Global.Cache.CacheEntries.Get(); b < 0 || n < 0 {
+				negSeen = fmt.Sprintf("reported bytes %d, entries %d at step %d", b, n, step)
+			}
+		}
+		defer func() {
+			if negSeen != "" {
+				res.violate("C12.c", p.Backend+" negative-counter in-passing", "%s [%s]", negSeen, opSig(p))
+			}
+		}()
 		s.Exempt()
 		cfg := config.NewDefault()
 		cfg.Cache.MaxCacheSize.Stage(bytesize.ByteSize(p.MaxSize))
